@@ -40,9 +40,28 @@ def random_rate(rng, maxcap_fc):
     return 10, 3, 1000
 
 
-def random_config(rng, seed, mode=None, nd=None, dtype=None, maxcap=3000):
+def random_config(rng, seed, mode=None, nd=None, dtype=None, maxcap=3000, strat=None):
+    """`strat` (a running scenario number) stratifies the discrete choices so that every element type, byte order,
+    real/complex, mode and subchannel count is met within a few dozen scenarios instead of by chance"""
+    order = cplx = nsub = None
+    if strat is not None:
+        i = strat
+        dtype = dtype or DTYPES[i % 10]
+        order = "<>"[(i // 10 + i) % 2]
+        cplx = bool((i // 2 + i // 20) % 2)
+        mode = mode or ["gapped", "contU", "contC", "gapped"][(i // 3 + i) % 4]
+        nsub = [1, 2, 1, 3, 5][(i // 4 + i) % 5]
+        if i % 9 == 4 and mode == "contU":
+            mode = ["gapped", "contC"][(i // 9) % 2]    # the very-large-window stratum needs a chunked mode
     mode = mode or rng.choice(["gapped", "gapped", "contU", "contC"])
-    n, d, fc = random_rate(rng, maxcap if mode != "contU" else min(maxcap, 2000))
+    big = mode != "contU" and (rng.random() < 0.25 or (strat is not None and strat % 9 == 4))
+    if big:
+        # few samples in very large file windows: rates up to 2^32-1 Hz with 1 ms files, indices beyond 2^63
+        n = rng.choice(PRIMES_NEAR_2_32 + [2**32 - 1, 4000000000, 3999999999, rng.randint(2**31, 2**32 - 1)])
+        d = rng.choice([1, 1, 1, 3])
+        fc = rng.choice([1, 1, 2])
+    else:
+        n, d, fc = random_rate(rng, maxcap if mode != "contU" else min(maxcap, 2000))
     # subdir cadence: a multiple of the file cadence (in ms), at most ~1000 file cadences
     k = rng.choice([1, 2, 3, 5, 10, 60, 1000])
     sc_ms = fc * k
@@ -55,6 +74,8 @@ def random_config(rng, seed, mode=None, nd=None, dtype=None, maxcap=3000):
             sc += 1
     nw = rng.randint(4, 10)
     y = rng.choice([1980, 1999, 2001, 2020, 2038, 2069, 2099, rng.randint(1980, 2099)])
+    if big and rng.random() < 0.7:
+        y = rng.choice([2069, 2080, 2099])   # absolute sample indices at or above 2^63
     t_s = calendar.timegm((y, rng.randint(1, 12), rng.randint(1, 28), rng.randint(0, 23), rng.randint(0, 59), rng.randint(0, 59)))
     t0 = t_s * 1000 // fc * fc
     if rng.random() < 0.6:
@@ -62,22 +83,31 @@ def random_config(rng, seed, mode=None, nd=None, dtype=None, maxcap=3000):
         sb = (t0 // (sc * 1000) + 1) * sc * 1000
         t0 = sb - rng.randint(1, nw - 1) * fc
     dtype = dtype or rng.choice(DTYPES)
-    order = rng.choice(["<", "<", ">"])
+    order = order or rng.choice(["<", "<", ">"])
     if dtype.endswith("1"):
         order = "|"
     cc = cd.ChanConfig(
-        n, d, fc, sc, np.dtype(order + dtype if order != "|" else dtype), rng.random() < 0.5, rng.choice([1, 1, 2, 3, 5]),
-        mode, t0, nw,
+        n, d, fc, sc, np.dtype(order + dtype if order != "|" else dtype), (rng.random() < 0.5) if cplx is None else cplx,
+        nsub or rng.choice([1, 1, 2, 3, 5]), mode, t0, nw,
         compression=(rng.randint(1, 9) if mode == "contC" and rng.random() < 0.6 else (rng.choice([0, 0, 1, 9]) if mode == "gapped" else 0)),
         checksum=(mode == "gapped" and rng.random() < 0.3), seed=seed, nd=nd or rng.choice([1, 1, 1, 2]),
     )
     return cc
 
 
-def mismatch_params(rng, p):
-    """a parameter tuple differing from p in exactly one stored parameter"""
+MISMATCH_KINDS = ["kind", "size", "order", "sc", "fc", "n", "d", "is_complex", "nsub", "continuous", "equiv"]
+
+
+def mismatch_params(rng, p, which=None):
+    """a parameter tuple differing from p in exactly one stored parameter (`equiv`: the same rate written as an
+    unreduced fraction - numerator and denominator are stored parameters, so it differs in two of them)"""
     q = dict(p)
-    k = rng.choice(["kind", "size", "order", "sc", "fc", "n", "d", "is_complex", "nsub", "continuous"])
+    k = which if which is not None else rng.choice(MISMATCH_KINDS)
+    if k == "equiv":
+        if p["n"] * 2 < 2**32 and p["d"] * 2 <= 10**9:
+            q["n"], q["d"] = p["n"] * 2, p["d"] * 2
+            return q
+        k = "n"
     if k == "kind":
         if p["size"] in (4, 8):
             q["kind"] = "f" if p["kind"] in "iu" else "i"
@@ -288,15 +318,16 @@ class Online:
 
 
 def run_random(digital_rf, root, rng, seed, name, **kw):
-    cc = random_config(rng, seed, **{k: v for k, v in kw.items() if k in ("mode", "nd", "dtype", "maxcap")})
+    cc = random_config(rng, seed, **{k: v for k, v in kw.items() if k in ("mode", "nd", "dtype", "maxcap", "strat")})
     if os.path.exists(root):
         shutil.rmtree(root)
     os.makedirs(root)
     p1 = cc.params()
+    p2 = mismatch_params(rng, p1, MISMATCH_KINDS[seed % len(MISMATCH_KINDS)])   # every kind of mismatch in turn
     if kw.get("cdriver"):
-        ch = cd.CChannel(digital_rf, root, cc, [p1, mismatch_params(rng, p1)], kw["cdriver"])
+        ch = cd.CChannel(digital_rf, root, cc, [p1, p2], kw["cdriver"])
     else:
-        ch = cd.Channel(digital_rf, root, cc, [p1, mismatch_params(rng, p1)])
+        ch = cd.Channel(digital_rf, root, cc, [p1, p2])
     Online(rng, ch, **{k: v for k, v in kw.items() if k in ("bad_rate", "empty_rate", "blocks_rate", "observe_mid")}).run(
         nsessions=kw.get("nsessions"), observe_pairs=kw.get("observe_pairs", 30), nvec=kw.get("nvec", 8), regen=kw.get("regen", 0)
     )
